@@ -1,4 +1,5 @@
 import NflowsModel.Audit.Tool
 import NflowsModel.Properties.C08
+import NflowsModel.Properties.C08I
 
 #audit_namespace Properties.C08
